@@ -487,8 +487,7 @@ class XMLResource(XMLResourceLoader):
             raise XMLResourceError(msg)
 
         if self.is_defused():
-            if fp.seekable() or isinstance(fp, (io.RawIOBase, io.BufferedIOBase)) and \
-                    (self._opener is None or self.url is None):
+            if fp.seekable() or isinstance(fp, (io.RawIOBase, io.BufferedIOBase)):
                 # For seekable file-like objects or ones that can be wrapped in
                 # a buffered reader defuse with rewind option if no custom opener
                 # is provided and the instance has a url, otherwise fallback to
